@@ -128,16 +128,17 @@ let cmd_psetraw t =
   let bs = next_hex t in
   try
     match parse o bs with
-    | RErr -> Printf.printf "parse=err reser=- re=-\n"
+    | RErr -> Printf.printf "parse=none\n"
     | RPanic -> Printf.printf "parse=panic reser=- re=-\n"
     | ROk p ->
-      let d = dump_pset p in
+      let dc = dump_pset p in
+      let d = dc ^ " pwf=" ^ b2s (wf o p) in   (* is the accepted packet inside the round-trip domain? *)
       (match ser_pset p with
        | RPanic -> Printf.printf "parse=%s reser=panic re=-\n" d
        | RErr -> Printf.printf "parse=%s reser=err re=-\n" d
        | ROk bs2 ->
          let re = match parse o bs2 with
-           | ROk p2 -> if dump_pset p2 = d then "same" else "diff:" ^ dump_pset p2
+           | ROk p2 -> if dump_pset p2 = dc then "same" else "diff:" ^ dump_pset p2
            | RErr -> "err" | RPanic -> "panic" in
          Printf.printf "parse=%s reser=%s re=%s\n" d (hex_of_bytes bs2) re)
   with Oracle_miss m -> Printf.printf "oracle-miss %s\n" m
